@@ -385,6 +385,10 @@ def interleavings(lens):
     yield from rec(list(lens), [])
 
 
+GATE_PROBES = ["ISON obs", "OPER root rootpw", "MODE x +i", "AWAY :gone", "JOIN #own", "PRIVMSG obs :imp",
+               "MODE y +w", "TOPIC #own :t", "WALLOPS :w", "KILL obs :r", "PART #own", "WHOIS x"]
+
+
 class OwnRun:
     def __init__(self, binary, hooks, with_password, seed):
         self.binary = binary
@@ -398,13 +402,15 @@ class OwnRun:
         self.samples = []
         self.replays = []
         self.current = ((), ())
+        self.probe_no = 0
 
     def bad(self, sig, detail):
         self.findings.append((sig, "[server password %s] %s" % ("on" if self.pw else "off", detail)))
         self.replays.append({"scripts": list(self.current[0]), "schedule": list(self.current[1]), "password": bool(self.pw)})
 
     def run(self, jobs):
-        cfg = dict(password=sut.password_hash(self.binary, "good") if self.pw else None)
+        cfg = dict(password=sut.password_hash(self.binary, "good") if self.pw else None,
+                   operators=[dict(name="root", password=sut.password_hash(self.binary, "rootpw"))])
         with sut.Server(self.binary, cfg, hooks=self.hooks) as srv:
             obs = wire.Client(srv.port, name="obs")
             obs.register("obs", "obs", password="good" if self.pw else None)
@@ -551,13 +557,27 @@ class OwnRun:
             if c.closed:
                 continue
             if mynick[j] is None:
-                lines = c.cmd("ISON obs")
+                # a never-welcomed connection is gated for every command that could touch a registered user
+                self.probe_no += 1
+                probe = GATE_PROBES[self.probe_no % len(GATE_PROBES)]
+                before = json.dumps(snap["users"], sort_keys=True) if snap is not None else None
+                lines = c.cmd(probe)
                 if c.closed:
+                    if "464" not in [m.verb for m in lines] and not any(m.verb.startswith("ERROR") for m in lines):
+                        self.bad("own:unregistered-probe-closed", "trace %s: connection %d closed after %r: %s"
+                                 % (trace, j, probe, [m.raw for m in lines][-2:]))
+                        return False
                     continue
                 if [m.verb for m in lines] != ["451"]:
-                    self.bad("own:unregistered-passes-gate", "trace %s: connection %d was never welcomed but ISON "
-                             "answered %s" % (trace, j, [m.raw for m in lines][:2]))
+                    self.bad("own:unregistered-passes-gate", "trace %s: connection %d was never welcomed but %r was "
+                             "answered %s" % (trace, j, probe, [m.raw for m in lines][:2]))
                     return False
+                if before is not None:
+                    after = json.dumps(srv.snap()["users"], sort_keys=True)
+                    if after != before:
+                        self.bad("own:unregistered-changed-user", "trace %s: %r from the never-welcomed connection %d "
+                                 "changed a registered user" % (trace, probe, j))
+                        return False
             else:
                 lines = c.cmd("PING alive")
                 if c.closed:
